@@ -8,6 +8,7 @@ from .._change import DictInsert
 from .._global_state import state
 from .._inline_snapshot import UndecidedValue
 from .._sentinels import undefined
+from .._unmanaged import Unmanaged
 from .generic_value import GenericValue
 
 
@@ -44,7 +45,12 @@ class DictValue(GenericValue):
         if self._new_value is not undefined and self._old_value is not undefined:
             for key, s in self._new_value.items():
                 if key in self._old_value:
-                    s._re_eval(self._old_value[key], context)
+                    old_value = self._old_value[key]
+                    if isinstance(old_value, Unmanaged):
+                        # the sub-snapshot shares this wrapper, it has
+                        # the new value already
+                        old_value = old_value.value
+                    s._re_eval(old_value, context)
 
     def _new_code(self):
         return (
